@@ -39,8 +39,11 @@ Formulas == <<
   \* the same interaction in two parts whose other terms differ: its full/reduced coding is decided per part
   F("two", << <<<<b>>>> >>, << <<I1, <<A>>, <<A, a>>>>, <<I1, <<a>>, <<A, a>>>> >>),     \* b ~ A + A:a | a + A:a
   F("root", <<>>, << <<I1, <<a>>, <<A, a>>>>, <<<<A, a>>>>, <<I1, <<A>>, <<A, a>>>> >>),     \* a + A:a | 0 + A:a | A + A:a
-  F("root", <<>>, << <<I1, <<b>>, <<CL>>>> >>) >>                       \* b + C(L)
-FormulaIds == IF FormulaSet = "c06" THEN 1..9 \cup {17} ELSE {4, 5, 8, 9, 10, 11, 12, 13, 14, 15, 16}
+  F("root", <<>>, << <<I1, <<b>>, <<CL>>>> >>),                      \* b + C(L)
+  \* the same factors in two parts, under another literal scale / written in another order: a part is built from ITS terms
+  F("two", << <<<<b>>>> >>, << <<I1, <<a>>, <<A>>>>, <<I1, <<Lit(2), a>>>> >>),          \* b ~ a + A | 2:a
+  F("two", << <<<<b>>>> >>, << <<I1, <<a, A>>>>, <<I1, <<A, a>>>> >>) >>                 \* b ~ a:A | A:a
+FormulaIds == IF FormulaSet = "c06" THEN 1..9 \cup {17} ELSE {4, 5, 8, 9, 10, 11, 12, 13, 14, 15, 16, 18, 19}
 
 VARIABLES na_, nb_, nA_, fid, na, drop0
 vars == <<na_, nb_, nA_, fid, na, drop0>>
